@@ -39,6 +39,7 @@ RULES = [
     Rule('C02.X1', 'both engines implement every abstract op with the abstract operand order; some engine answers', E.x1_engines_complete('C02'), 60, 'X'),
     Rule('C02.S2', 'MPFR engine methods: refuse Fractions, (prec,n) from ctx, one _mpfr_eval with the matching primitive', E.s2_mpfr_methods('C02'), 50, 'S,T'),
     Rule('C02.F1', 'round-to-odd wrapper: RoundToZero, prec+2 digits, ternary of the fixed value, sticky fold', E.f1_round_to_odd, 12, 'F'),
+    Rule('C02.F3', 'a value MPFR hands back is used only after its overflow / underflow flags were consulted (MPFR has an exponent range of its own)', E.f3_mpfr_exponent_range, 1, 'F'),
     Rule('C02.F2', 'every callable handed to the wrapper is a single MPFR operation', E.f2_single_operation('C02'), 15, 'F'),
     Rule('C02.S3', 'local MPFR wrappers compute the operation they are named after (neg, abs, pow, lgamma = first component of gmp.lgamma); special operands reach MPFR with their sign', E.s3_wrapper_primitives, 4, 'S,T'),
     Rule('C02.G1', 'helper-answered MPFR methods: _mod takes floor of a quotient kept to the units digit and subtracts exactly; _fdim is one subtraction at (prec, n); special-operand tables', E.g1_helper_methods, 14, 'G,T'),
